@@ -35,6 +35,9 @@ let delegated p = p.p_kind = KDelegated
 let handle kind c =
   match kind with
   | "start" ->
+    let entry = (match next c with
+        | "start" -> EntryStart | "maybechild" -> EntryMaybeChild
+        | t -> failwith ("bad entry " ^ t)) in
     let mset = next_bool c in
     let marker = next_bytes c in
     let uv = next_bool c in
@@ -52,7 +55,7 @@ let handle kind c =
     ignore mset;
     let cfg = { c_crash = crash; c_upload = upload } in
     (* model vs implementation *)
-    let r = start_run marker uv cfg mode ld period now0 tok in
+    let r = program_run entry marker uv cfg mode ld period now0 tok in
     let want_outcome = match r.r_outcome with
       | OReturned -> "returned" | OChildExit -> "exit0-in-start" | OFatal -> "fatal" in
     let got_outcome =
@@ -60,7 +63,7 @@ let handle kind c =
       else if exit = 0 then "exit0-in-start"
       else if exit = 1 then "fatal" else Printf.sprintf "exit%d" exit in
     check_eq "outcome" (fun s -> s) want_outcome got_outcome;
-    let want = spawned fuel marker uv cfg mode ld period now0 tok in
+    let want = spawned_e fuel entry marker uv cfg mode ld period now0 tok in
     (* the crash monitor of a sidecar exits the process as soon as its parent
        is gone, possibly before the uploader ran the go command: with crash
        reporting on, the delegated process is optional *)
@@ -84,8 +87,8 @@ let handle kind c =
     if (not m_writes) && changed then diff "dir-unchanged" ~model:"unchanged" ~impl:"changed";
     (* the property on the observations *)
     let detail () =
-      Printf.sprintf "marker=\"%s\" upload_var=%b crash=%b upload=%b mode=\"%s\" token=%s procs=%s token_created=%b dir_changed=%b"
-        (esc marker) uv crash upload (esc mode)
+      Printf.sprintf "entry=%s marker=\"%s\" upload_var=%b crash=%b upload=%b mode=\"%s\" token=%s procs=%s token_created=%b dir_changed=%b"
+        (match entry with EntryStart -> "Start" | EntryMaybeChild -> "MaybeChild-then-Start") (esc marker) uv crash upload (esc mode)
         (match tok with None -> "absent" | Some m -> "age " ^ tok_of_z (Z.opp m) ^ "ns")
         (show_procs procs) tok_created changed in
     if not (start_ok marker uv cfg mode period now0 tok tok_created changed procs) then begin
